@@ -53,6 +53,23 @@ def headOf (log : List Entry) : Int × Int :=
 def getNode (w : World) (i : Nat) : Node := w.nodes.getD i {}
 def setNode (w : World) (i : Nat) (n : Node) : World := { w with nodes := w.nodes.set i n }
 
+/-- how the code decides at the points the seeded changes and the proofs care about (regenerated facts) -/
+structure Cfg where
+  /-- `GetOrCreateFollower` refuses to replace a leader controller for a request of another term -/
+  lateGuard : Bool
+  /-- `truncateFollowerIfNeeded`: a follower on an older term is compared with the leader's last entry of
+      that term (not with the leader's election head) -/
+  truncCmpOk : Bool
+  /-- `followerController.Truncate` is accepted in status FENCED only -/
+  truncFencedOnly : Bool
+  /-- the cursor starts at the head the follower has after the truncation -/
+  cursorAtTruncated : Bool
+  /-- `followerController.append` compares the request's term with its own in every status -/
+  appendChecksTerm : Bool
+  deriving Repr
+
+def Cfg.good : Cfg := ⟨true, true, true, true, true⟩
+
 inductive Err | invalidTerm | invalidStatus | noSuchNode | notLeader | timeout | invalidHead
   deriving DecidableEq, Repr
 
@@ -67,11 +84,11 @@ def toLeaderCtrl (n : Node) : Node :=
 
 /-- `GetOrCreateFollower(term)`: an existing leader controller is only replaced when the request carries
     its term (`lateConversionGuard` = fact); `none` = refused -/
-def toFollowerCtrl (guard : Bool) (n : Node) (reqTerm : Int) : Option Node :=
+def toFollowerCtrl (cfg : Cfg) (n : Node) (reqTerm : Int) : Option Node :=
   match n.ctrl with
   | .followerC => some n
   | .leaderC =>
-    if guard && reqTerm ≥ 0 && reqTerm ≠ n.term then none
+    if cfg.lateGuard && reqTerm ≥ 0 && reqTerm ≠ n.term then none
     else some { n with ctrl := .followerC, status := freshStatus n.term, cursors := [], rf := 0 }
   | .none => some { n with ctrl := .followerC, status := freshStatus n.term, cursors := [], rf := 0 }
 
@@ -96,37 +113,50 @@ def highestOfTerm (log : List Entry) (t : Int) : Int × Int :=
   | none => (-1, -1)
 
 /-- the follower's side of the Truncate RPC -/
-def truncateFollower (guard : Bool) (w : World) (f : Nat) (t : Int) (upTo : Int) : World × Except Err Int :=
+def truncateFollower (cfg : Cfg) (w : World) (f : Nat) (t : Int) (upTo : Int) : World × Except Err Int :=
   if f ≥ w.nodes.length then (w, .error .noSuchNode) else
-  match toFollowerCtrl guard (getNode w f) t with
+  match toFollowerCtrl cfg (getNode w f) t with
   | none => (w, .error .invalidTerm)
   | some n =>
-    if n.status ≠ .fenced then (setNode w f n, .error .invalidStatus)
+    if n.status ≠ .fenced ∧ (cfg.truncFencedOnly ∨ n.status ≠ .follower) then (setNode w f n, .error .invalidStatus)
     else if t ≠ n.term then (setNode w f n, .error .invalidTerm)
     else
       let log' := n.log.take (upTo + 1).toNat
       (setNode w f { n with status := .follower, log := log' }, .ok ((log'.length : Int) - 1))
 
+/-- what `truncateFollowerIfNeeded` decides from the follower's reported head `fh`, the leader's election
+    head `eh` and the leader's log -/
+inductive Plan
+  | attach (ack : Int)        -- no truncation: the cursor starts at the follower's head
+  | truncate (upTo : Int)     -- truncate the follower to this offset (the leader's last entry of the follower's head term)
+  | refuse                    -- the follower's head term is ahead of the leader's
+  deriving DecidableEq, Repr
+
+def plan (cfg : Cfg) (L : List Entry) (fh eh : Int × Int) : Plan :=
+  if fh.1 = eh.1 ∧ fh.2 ≤ eh.2 then .attach fh.2
+  else if fh.1 > eh.1 then .refuse
+  else if fh.1 = (highestOfTerm L fh.1).1 ∧ fh.2 ≤ (if cfg.truncCmpOk then (highestOfTerm L fh.1).2 else eh.2) then .attach fh.2
+  else .truncate (highestOfTerm L fh.1).2
+
 /-- `addFollower` on the leader: truncate the follower if needed, then attach a cursor -/
-def addFollower (guard : Bool) (w : World) (l : Nat) (f : Nat) (fh : Int × Int) (eh : Int × Int) : World × Except Err Unit :=
+def addFollower (cfg : Cfg) (w : World) (l : Nat) (f : Nat) (fh : Int × Int) (eh : Int × Int) : World × Except Err Unit :=
   let ln := getNode w l
   let attach (w : World) (ack : Int) : World × Except Err Unit :=
     let ln := getNode w l
     -- NewCursorAcker: the acknowledged offset cannot be beyond the leader's head
     if ack > (ln.log.length : Int) - 1 then (w, .error .invalidHead)
     else (setNode w l { ln with cursors := ln.cursors.filter (·.1 ≠ f) ++ [(f, ack)] }, .ok ())
-  if fh.1 = eh.1 ∧ fh.2 ≤ eh.2 then attach w fh.2
-  else if fh.1 > eh.1 then (w, .error .invalidStatus)
-  else
-    let last := highestOfTerm ln.log fh.1
-    if fh.1 = last.1 ∧ fh.2 ≤ last.2 then attach w fh.2
-    else if w.cut.contains f || w.cut.contains l then (w, .error .timeout)
-    else match truncateFollower guard w f ln.term last.2 with
-      | (w', .ok h) => attach w' h
+  match plan cfg ln.log fh eh with
+  | .attach ack => attach w ack
+  | .refuse => (w, .error .invalidStatus)
+  | .truncate upTo =>
+    if w.cut.contains f || w.cut.contains l then (w, .error .timeout)
+    else match truncateFollower cfg w f ln.term upTo with
+      | (w', .ok h) => attach w' (if cfg.cursorAtTruncated then h else fh.2)
       | (w', .error e) => (w', .error e)
 
 /-- push the leader's entries beyond `ack` to a follower, as `followerController.append` takes them -/
-def pushLoop (leaderLog : List Entry) (t : Int) : Nat → Int → Node → Node × Int
+def pushLoop (checkAlways : Bool) (leaderLog : List Entry) (t : Int) : Nat → Int → Node → Node × Int
   | 0, ack, f => (f, ack)
   | fuel + 1, ack, f =>
     let o := ack + 1
@@ -134,23 +164,23 @@ def pushLoop (leaderLog : List Entry) (t : Int) : Nat → Int → Node → Node 
     | none => (f, ack)
     | some e =>
       if o < 0 then (f, ack)
-      else if t ≠ f.term then (f, ack)                               -- ErrInvalidTerm: the stream ends
+      else if t ≠ f.term ∧ (checkAlways ∨ f.status ≠ .follower) then (f, ack)   -- ErrInvalidTerm: the stream ends
       else
         let f := { f with status := .follower }
-        if o ≤ (f.log.length : Int) - 1 then pushLoop leaderLog t fuel o f     -- duplicate: acknowledged as is
-        else if o = (f.log.length : Int) then pushLoop leaderLog t fuel o { f with log := f.log ++ [e] }
+        if o ≤ (f.log.length : Int) - 1 then pushLoop checkAlways leaderLog t fuel o f     -- duplicate: acknowledged as is
+        else if o = (f.log.length : Int) then pushLoop checkAlways leaderLog t fuel o { f with log := f.log ++ [e] }
         else (f, ack)                                                  -- the WAL refuses a gap
 
 /-- one cursor of a leader -/
-def pushCursor (guard : Bool) (w : World) (l : Nat) (c : Nat × Int) : World × (Nat × Int) :=
+def pushCursor (cfg : Cfg) (w : World) (l : Nat) (c : Nat × Int) : World × (Nat × Int) :=
   let ln := getNode w l
   if w.cut.contains l || w.cut.contains c.1 || c.1 ≥ w.nodes.length then (w, c) else
-  match toFollowerCtrl guard (getNode w c.1) ln.term with
+  match toFollowerCtrl cfg (getNode w c.1) ln.term with
   | none => (w, c)
   | some f =>
     if f.status ≠ .fenced ∧ f.status ≠ .follower then (setNode w c.1 f, c)
     else
-      let (f', ack) := pushLoop ln.log ln.term (ln.log.length + 1) c.2 f
+      let (f', ack) := pushLoop cfg.appendChecksTerm ln.log ln.term (ln.log.length + 1) c.2 f
       (setNode w c.1 f', (c.1, ack))
 
 /-- the tracker's commit offset after the acknowledgements: the highest offset above the current one that
@@ -162,21 +192,21 @@ def quorumCommit (rf : Nat) (commit : Int) (head : Int) (cursors : List (Nat × 
     (cand.takeWhile fun o => decide ((cursors.filter fun c => decide (c.2 ≥ o)).length ≥ rf / 2)).getLast?.getD commit
 
 /-- everything a leader's cursors can deliver is delivered and acknowledged -/
-def settleLeader (guard : Bool) (w : World) (l : Nat) : World :=
+def settleLeader (cfg : Cfg) (w : World) (l : Nat) : World :=
   let ln := getNode w l
   if ln.ctrl ≠ .leaderC then w else
   let (w', cs) := ln.cursors.foldl (fun (acc : World × List (Nat × Int)) c =>
-    let (w2, c2) := pushCursor guard acc.1 l c
+    let (w2, c2) := pushCursor cfg acc.1 l c
     (w2, acc.2 ++ [c2])) (w, [])
   let ln := getNode w' l
   let commit := if ln.status = .leader then quorumCommit ln.rf ln.commit ((ln.log.length : Int) - 1) cs else ln.commit
   setNode w' l { ln with cursors := cs, commit := commit }
 
-def settle (guard : Bool) (w : World) : World :=
-  (List.range w.nodes.length).foldl (settleLeader guard) w
+def settle (cfg : Cfg) (w : World) : World :=
+  (List.range w.nodes.length).foldl (settleLeader cfg) w
 
 /-- the BecomeLeader RPC (followers in the order given) -/
-def becomeLeader (guard : Bool) (w : World) (l : Nat) (t : Int) (rf : Nat) (fm : List (Nat × (Int × Int))) :
+def becomeLeader (cfg : Cfg) (w : World) (l : Nat) (t : Int) (rf : Nat) (fm : List (Nat × (Int × Int))) :
     World × Except Err Unit :=
   if l ≥ w.nodes.length then (w, .error .noSuchNode) else
   let n := toLeaderCtrl (getNode w l)
@@ -189,22 +219,22 @@ def becomeLeader (guard : Bool) (w : World) (l : Nat) (t : Int) (rf : Nat) (fm :
     let rec attachAll (w : World) : List (Nat × (Int × Int)) → World × Except Err Unit
       | [] => (w, .ok ())
       | (f, fh) :: rest =>
-        match addFollower guard w l f fh eh with
+        match addFollower cfg w l f fh eh with
         | (w', .ok ()) => attachAll w' rest
         | (w', .error e) => (w', .error e)
     match attachAll w fm with
     | (w', .error e) => (w', .error e)
     | (w', .ok ()) =>
       -- WaitForCommitOffset(election head): the whole log has to reach a quorum
-      let w2 := settleLeader guard w' l
+      let w2 := settleLeader cfg w' l
       let ln := getNode w2 l
       let acked := (ln.cursors.filter fun c => decide (c.2 ≥ eh.2)).length
       if rf / 2 = 0 ∨ acked ≥ rf / 2 ∨ eh.2 ≤ n.commit then
-        (settleLeader guard (setNode w2 l { ln with status := .leader, commit := eh.2 }) l, .ok ())
+        (settleLeader cfg (setNode w2 l { ln with status := .leader, commit := eh.2 }) l, .ok ())
       else (w2, .error .timeout)
 
 /-- the AddFollower RPC -/
-def addFollowerRpc (guard : Bool) (w : World) (l : Nat) (t : Int) (f : Nat) (fh : Int × Int) : World × Except Err Unit :=
+def addFollowerRpc (cfg : Cfg) (w : World) (l : Nat) (t : Int) (f : Nat) (fh : Int × Int) : World × Except Err Unit :=
   if l ≥ w.nodes.length then (w, .error .noSuchNode) else
   let ln := getNode w l
   if ln.ctrl ≠ .leaderC then (w, .error .notLeader)
@@ -213,19 +243,70 @@ def addFollowerRpc (guard : Bool) (w : World) (l : Nat) (t : Int) (f : Nat) (fh 
   else if ln.cursors.any (·.1 = f) then (w, .ok ())
   else if ln.cursors.length + 1 = ln.rf then (w, .error .invalidStatus)
   else
-    match addFollower guard w l f fh ln.electionHead with
-    | (w', .ok ()) => (settleLeader guard w' l, .ok ())
+    match addFollower cfg w l f fh ln.electionHead with
+    | (w', .ok ()) => (settleLeader cfg w' l, .ok ())
     | r => r
 
 /-- a client write on node `l`; `.error .timeout` = appended but not committed (no quorum reachable) -/
-def write (guard : Bool) (w : World) (l : Nat) (id : Nat) : World × Except Err Int :=
+def write (cfg : Cfg) (w : World) (l : Nat) (id : Nat) : World × Except Err Int :=
   if l ≥ w.nodes.length then (w, .error .noSuchNode) else
   let ln := getNode w l
   if ln.ctrl ≠ .leaderC ∨ ln.status ≠ .leader then (w, .error .notLeader)
   else
     let o : Int := ln.log.length
-    let w1 := settleLeader guard (setNode w l { ln with log := ln.log ++ [{ term := ln.term, id := id }] }) l
+    let w1 := settleLeader cfg (setNode w l { ln with log := ln.log ++ [{ term := ln.term, id := id }] }) l
     if (getNode w1 l).commit ≥ o then (w1, .ok o) else (w1, .error .timeout)
+
+/-! ### the coordinator's election decision (`newTermQuorum`, `selectNewLeader`) -/
+
+def better (a b : Int × Int) : Bool := decide (a.1 > b.1 ∨ (a.1 = b.1 ∧ a.2 > b.2))
+
+/-- the responder with the highest head entry (term first, then offset); ties go to `want` if it is among
+    the best, else to the first best one -/
+def chooseLeader (want : Nat) (cands : List (Nat × (Int × Int))) : Option (Nat × (Int × Int)) :=
+  match cands with
+  | [] => none
+  | c :: cs =>
+    let first := match cands.find? (·.1 = want) with | some x => x | none => c
+    some ((c :: cs).foldl (fun acc x => if better x.2 acc.2 then x else acc) first)
+
+/-- `electLeader` of the shard controller, on settled states: new term to every node of the ensemble and
+    to the nodes being removed; a majority of all of them has to answer; the leader is chosen among the
+    answering members of the (new) ensemble; the other answering members become its followers.
+    `majorityOverAll` = fact: the majority is counted over ensemble + removed nodes. -/
+def elect (cfg : Cfg) (majorityOverAll : Bool) (w : World) (want : Nat) (t : Int) (members removed : List Nat) :
+    World × Except Err Nat :=
+  let all := members ++ removed.filter (fun r => !members.contains r)
+  let (w1, answers) := all.foldl (fun (acc : World × List (Nat × (Int × Int))) i =>
+    if acc.1.cut.contains i then acc else
+    match newTerm acc.1 i t with
+    | (w', .ok h) => (w', acc.2 ++ [(i, h)])
+    | (w', .error _) => (w', acc.2)) (w, [])
+  let needed := (if majorityOverAll then all.length else members.length) / 2 + 1
+  if answers.length < needed then (w1, .error .timeout) else
+  let cands := answers.filter fun a => members.contains a.1
+  match chooseLeader want cands with
+  | none => (w1, .error .timeout)
+  | some best =>
+    match becomeLeader cfg w1 best.1 t members.length (cands.filter (·.1 ≠ best.1)) with
+    | (w2, .ok ()) => (w2, .ok best.1)
+    | (w2, .error e) => (w2, .error e)
+
+/-- a client write that has passed the leader's status check races with a NewTerm request for the same
+    node. `locked` = fact: NewTerm waits for the append. Returns the head the node reports. -/
+def raceWriteNewTerm (cfg : Cfg) (locked : Bool) (w : World) (l : Nat) (id : Nat) (t : Int) : World × Except Err (Int × Int) :=
+  let ln := getNode w l
+  if ln.ctrl ≠ .leaderC ∨ ln.status ≠ .leader then newTerm w l t
+  else if locked then
+    -- the append happens first; the head reported includes it
+    newTerm (write cfg w l id).1 l t
+  else
+    -- the head is read first; the entry of the old term is appended afterwards
+    match newTerm w l t with
+    | (w', .ok h) =>
+      let n := getNode w' l
+      (setNode w' l { n with log := n.log ++ [{ term := ln.term, id := id }] }, .ok h)
+    | r => r
 
 /-- a process restart: the controllers are gone, the storage stays -/
 def restart (w : World) (i : Nat) : World :=
